@@ -37,7 +37,7 @@ INV_A = ["TypeOK", "SweepPrefix", "FramePrefix", "AssignExact", "ModelPicksFirst
 INV_F = ["TypeOK", "CenterFinderMinimal", "CenterPrefix"]
 INV_P = ["TypeOK", "NoError", "PairUnique", "PILoopInv", "InnerLoopBreaks", "PairCorrect", "PairSameFrame",
          "PLPrefix", "PartitionRoundTrip", "SquareIffEqualLengths"]
-INV_B = ["TypeOK", "BatchPrefix", "BatchesCoverInOrder", "BatchWithinSize", "EmptyOnlyLeading"]
+INV_B = ["TypeOK", "BatchPrefix", "BatchesCoverInOrder", "BatchWithinSize", "NoEmptyBatch"]
 ACT_A = ["Start", "SweepCenter", "FrameStep", "AssignReturn", "CentersStart", "CenterStep", "CentersReturn"]
 ACT_F = ["CentersStart", "CenterStep", "CentersReturn"]
 ACT_P = ["SquareTest", "PLCheck", "PLStep", "PLReturn", "MakeRagged", "PINext", "PIInner", "PIReturn"]
@@ -52,7 +52,7 @@ SCOPES = {
                 dict(name="grid3x3", Dim=2, P=2, Shapes=[101, 102, 103, 201, 202])],
         cf=dict(LabelN=3, FullN=4, BinN=5, MaxFN=8),
         part=dict(MaxT=4, MaxTotal=8, LabelN=3, FullTotal=5),
-        pred_every=8, dtypes_int=["int64"]),
+        pred_every=12, dtypes_int=["int64"]),
     "thorough": dict(
         assign=[dict(name="line0..5", Dim=1, P=5, Shapes=[104, 303, 401, 402]),
                 dict(name="line0..7", Dim=1, P=7, Shapes=[103, 202, 203]),
@@ -63,6 +63,7 @@ SCOPES = {
         pred_every=16, dtypes_int=["int64", "int32", "int16"]),
 }
 
+PROCS = 8          # replay workers: the per-case work is tiny, more forks only add overhead on a shared machine
 JAVA_OPTS = ("-XX:ParallelGCThreads=2", "-Xmx3g", "-XX:TieredStopAtLevel=4")
 
 KEY_EMPTY_BATCH = "compute_batches/first-length>=batch_size/empty-leading-batch"
@@ -120,7 +121,17 @@ def _ints(x):
 # ---------------------------------------------------------------------------
 # (A) assign_to_nearest_center
 
-def _judge_assign(form, a, d, c, bad):
+class _Sited:
+    """appends (site, form, what, detail)"""
+    def __init__(self, lst, site):
+        self.lst, self.site = lst, site
+
+    def append(self, t):
+        self.lst.append((self.site,) + tuple(t))
+
+
+def _judge_assign(form, a, d, c, bad, site="assign_to_nearest_center"):
+    bad = _Sited(bad, site)
     n = len(c["X"])
     a = np.asarray(a)
     if a.shape != (n,) or np.asarray(d).shape != (n,) or not np.issubdtype(a.dtype, np.integer):
@@ -140,14 +151,16 @@ def replay_assign(c):
     from enspara.cluster import util
     m = c["metric"]
     fn = _metric_fn(m)
-    bad, recs = [], []
+    bad_all, recs = [], []
+    bad = _Sited(bad_all, "assign_to_nearest_center")
     forms = []
     for dt in _dtypes(m, c["_ints"]):
         conts = ["xyz"] if c["xyz"] else (["list", "ndarray"] if dt == "float64" else ["list"])
         forms += [(dt, cont) for cont in conts]
     if not c.get("_allforms"):
-        # quick tier: float64 always, plus one of the other dtype/container forms in rotation
-        forms = forms[:1] + [forms[1 + c.get("_rot", 0) % (len(forms) - 1)]]
+        # quick tier (shared machine, CPU budget): one dtype/container form per case, in rotation --
+        # every form still meets tens of thousands of cases of every scope
+        forms = [forms[c.get("_rot", 0) % len(forms)]]
     for dt, cont in forms:
         X = np.array(c["X"], dtype=dt)
         C2 = np.array(c["C"], dtype=dt)
@@ -164,12 +177,41 @@ def replay_assign(c):
         except Exception as ex:      # the property admits no error on these inputs
             bad.append((form, "raised", "%s: %s" % (type(ex).__name__, ex)))
             continue
-        _judge_assign(form, a, d, c, bad)
+        _judge_assign(form, a, d, c, bad_all)
         if not np.array_equal(Xc, X) or not np.array_equal(np.asarray(Cc), C2):
             bad.append((form, "input-modified", {"X": Xc.tolist(), "C": np.asarray(Cc).tolist()}))
     if c.get("_pred"):
         recs.append(predict_record(m, c["C"] + c["X"][::-1], len(c["C"]), c["X"], c["_pred"], c["_ints"]))
-    return {"bad": bad, "recs": recs}
+        predict_init_centers(c, c["_pred"], bad_all)
+    return {"bad": bad_all, "recs": recs}
+
+
+def predict_init_centers(c, j, bad_all):
+    """(A) for predict: KCenters(metric, n_clusters=1).fit(X, init_centers=C) keeps exactly the given
+    centres (no k-centers iteration is needed), so both the fit's own assignment of X and
+    .predict(X) must meet the emitted expectation for (X, C)."""
+    from enspara.cluster.kcenters import KCenters
+    m = c["metric"]
+    dts = _dtypes(m, c["_ints"])
+    dt = dts[j % len(dts)]
+    form = "%s/%s" % (m, dt)
+    X = np.array(c["X"], dtype=dt)
+    C2 = np.array(c["C"], dtype=dt)
+    try:
+        est = KCenters(_kc_metric(m, j), n_clusters=1).fit(X.copy(), init_centers=[r.copy() for r in C2])
+        fitted, _ = proj_points(est.centers_)
+        if fitted != c["C"]:
+            _Sited(bad_all, "KCenters.fit(init_centers)").append((form, "centers-changed", {"got": fitted}))
+            return
+        _judge_assign(form, est.labels_, est.distances_, c, bad_all, site="KCenters.fit(init_centers)")
+        Y = X.copy()
+        pred = est.predict(Y)
+        _judge_assign(form, pred.assignments, pred.distances, c, bad_all, site="KCenters.fit(init_centers).predict")
+        after, _ = proj_points(pred.centers)
+        if after != c["C"] or not np.array_equal(Y, X):
+            _Sited(bad_all, "KCenters.fit(init_centers).predict").append((form, "input-modified", None))
+    except Exception as ex:
+        _Sited(bad_all, "KCenters.fit(init_centers).predict").append((form, "raised", "%s: %s" % (type(ex).__name__, ex)))
 
 
 # ---------------------------------------------------------------------------
@@ -619,58 +661,66 @@ def run(ctx):
         jobs.append(kw)
         roles.append(role)
 
+    # One TLC run per scope does both jobs: it checks the implementation-shaped model (coverage on) and, at the
+    # initial states, prints the definition-level expectations (Emit = TRUE; single worker, so lines stay whole).
+    # In 1-D the specification's Linf and L1 are the same function, so the 1-D Linf run only emits.
     for si, s in enumerate(sc["assign"]):
         for m in METRICS:
             tag = "%d_%s" % (si, m)
-            core.write_cfg(os.path.join(d, "a_%s.cfg" % tag), init="InitA", next_="NextA",
-                           constants=_consts_assign(s, m, False), invariants=INV_A, properties=["InputsUnchanged"])
-            add(("A-mc", s, m), module="Assign", cfg="a_%s.cfg" % tag, cwd=d, workers=1, coverage=True, timeout=to,
-                label="Assign exhaustive %s %s shapes=%s" % (s["name"], m, s["Shapes"]))
-            core.write_cfg(os.path.join(d, "ae_%s.cfg" % tag), init="InitA", next_="NextNone",
-                           constants=_consts_assign(s, m, True), invariants=["EmitA"])
-            add(("A-emit", s, m), module="Assign", cfg="ae_%s.cfg" % tag, cwd=d, workers=1, timeout=to,
-                label="Assign emit %s %s" % (s["name"], m))
-    core.write_cfg(os.path.join(d, "f.cfg"), init="InitF", next_="NextF", constants=_consts_cf(sc["cf"], False),
-                   invariants=INV_F, properties=["InputsUnchanged"])
-    add(("F-mc",), module="Assign", cfg="f.cfg", cwd=d, workers=1, coverage=True, timeout=to,
-        label="find_cluster_centers exhaustive %s" % sc["cf"])
-    core.write_cfg(os.path.join(d, "fe.cfg"), init="InitF", next_="NextNone", constants=_consts_cf(sc["cf"], True),
-                   invariants=["EmitF"])
-    add(("F-emit",), module="Assign", cfg="fe.cfg", cwd=d, workers=1, timeout=to, label="find_cluster_centers emit")
+            mc = not (s["Dim"] == 1 and m == "linf")
+            core.write_cfg(os.path.join(d, "a_%s.cfg" % tag), init="InitA", next_="NextA" if mc else "NextNone",
+                           constants=_consts_assign(s, m, True), invariants=(INV_A if mc else []) + ["EmitA"],
+                           properties=["InputsUnchanged"] if mc else [])
+            # per-action coverage is collected on the l1 run of every scope (the actions and branches taken do
+            # not depend on the metric); the other metrics run without the ~35% coverage overhead
+            cov = mc and (m == "l1" or thorough)
+            add(("A", cov, s, m), module="Assign", cfg="a_%s.cfg" % tag, cwd=d, workers=1, coverage=cov, timeout=to,
+                label="Assign %s %s %s shapes=%s" % ("exhaustive+emit" if mc else "emit", s["name"], m, s["Shapes"]))
+    core.write_cfg(os.path.join(d, "f.cfg"), init="InitF", next_="NextF", constants=_consts_cf(sc["cf"], True),
+                   invariants=INV_F + ["EmitF"], properties=["InputsUnchanged"])
+    add(("F", True), module="Assign", cfg="f.cfg", cwd=d, workers=1, coverage=True, timeout=to,
+        label="find_cluster_centers exhaustive+emit %s" % sc["cf"])
     for part in ("labels", "indices"):
         core.write_cfg(os.path.join(d, "p_%s.cfg" % part), init="InitP", next_="NextP",
-                       constants=_consts_part(sc["part"], part, False), invariants=INV_P,
+                       constants=_consts_part(sc["part"], part, True), invariants=INV_P + ["EmitP"],
                        properties=["InputsUnchangedP"])
-        add(("P-mc", part), module="Partition", cfg="p_%s.cfg" % part, cwd=d, workers=1, coverage=True, timeout=to,
-            label="Partition exhaustive %s %s" % (part, sc["part"]))
-    core.write_cfg(os.path.join(d, "pe.cfg"), init="InitP", next_="NextNone",
-                   constants=_consts_part(sc["part"], "both", True), invariants=["EmitP"])
-    add(("P-emit",), module="Partition", cfg="pe.cfg", cwd=d, workers=1, timeout=to, label="Partition emit")
+        add(("P", True, part), module="Partition", cfg="p_%s.cfg" % part, cwd=d, workers=1, coverage=True, timeout=to,
+            label="Partition exhaustive+emit %s %s" % (part, sc["part"]))
     core.write_cfg(os.path.join(d, "b.cfg"), init="InitB", next_="NextB",
-                   constants=_consts_part(sc["part"], "both", False), invariants=INV_B)
-    add(("B-mc",), module="Partition", cfg="b.cfg", cwd=d, workers=1, coverage=True, timeout=to,
-        label="compute_batches exhaustive")
-    core.write_cfg(os.path.join(d, "be.cfg"), init="InitB", next_="NextNone",
-                   constants=_consts_part(sc["part"], "both", True), invariants=["EmitB"])
-    add(("B-emit",), module="Partition", cfg="be.cfg", cwd=d, workers=1, timeout=to, label="compute_batches emit")
+                   constants=_consts_part(sc["part"], "both", True), invariants=INV_B + ["EmitB"])
+    add(("B", True), module="Partition", cfg="b.cfg", cwd=d, workers=1, coverage=True, timeout=to,
+        label="compute_batches exhaustive+emit")
 
+    import resource
     import time
-    t0 = time.time()
+
+    def cpu():
+        a, b_ = resource.getrusage(resource.RUSAGE_CHILDREN), resource.getrusage(resource.RUSAGE_SELF)
+        return a.ru_utime + a.ru_stime + b_.ru_utime + b_.ru_stime
+    import gc
+    gc.disable()            # parsing the emitted cases allocates millions of long-lived objects
+    t0, c0 = time.time(), cpu()
     results = ctx.tlc_parallel(jobs, max_par=16)
     phases = {"tlc_exhaustive_and_emit": round(time.time() - t0, 1)}
-    t0 = time.time()
+    cpus = {"tlc_exhaustive_and_emit": round(cpu() - c0, 1)}
+    t0, c0 = time.time(), cpu()
 
+    for r in results:
+        r.stdout = ""           # tens of MB each; not needed any more (and not worth copying into forked workers)
+    # hundreds of thousands of parsed cases are alive from here on: full collections would re-traverse them
+    # over and over (and un-share their pages in the forked replay workers)
+    gc.freeze()
     # vacuity: every action of the implementation-shaped models fired
     fired_p = {}
     for role, r, j in zip(roles, results, jobs):
-        if role[0] == "A-mc":
-            need = [a for a in ACT_A if a != "FrameStep" or any(s % 100 > s // 100 for s in role[1]["Shapes"])]
+        if role[0] == "A" and role[1]:
+            need = [a for a in ACT_A if a != "FrameStep" or any(s % 100 > s // 100 for s in role[2]["Shapes"])]
             _check_fired(r, need, j["label"])
-        elif role[0] == "F-mc":
+        elif role[0] == "F":
             _check_fired(r, ACT_F, j["label"])
-        elif role[0] == "B-mc":
+        elif role[0] == "B":
             _check_fired(r, ACT_B, j["label"])
-        elif role[0] == "P-mc":
+        elif role[0] == "P":
             for a in ACT_P:
                 fired_p[a] = fired_p.get(a, 0) + (r.coverage.get(a) or 0)
     missing = [a for a in ACT_P if not fired_p.get(a)]
@@ -681,23 +731,22 @@ def run(ctx):
     pred_recs = []
     counter = 0
     def replay_assign_cases(acases):
-        res = core.pmap(replay_assign, acases, chunk=500)
+        res = core.pmap(replay_assign, acases, procs=PROCS, chunk=1000)
         for c, out in zip(acases, res):
             nontriv = len(c["C"]) >= 2 and any(v > 0 for v in c["mind"])
             ctx.case(hash((c["metric"], str(c["X"]), str(c["C"]), c["xyz"])) if nontriv else None,
                      sample={k: v for k, v in c.items() if not k.startswith("_")}
                      if nontriv and len(c["X"]) > 1 and c["xyz"] else None)
             ctx.traces += 1
-            for form, what, detail in out["bad"]:
-                report("assign_to_nearest_center/%s/%s" % (form, what),
-                       {"kind": "assign", "form": form, "what": what, "detail": detail,
-                        "case": {k: v for k, v in c.items() if k != "_pred"},
-                        "how": "assign_to_nearest_center(X, C, metric) vs Assign.tla MinD/Allowed"})
+            for site, form, what, detail in out["bad"]:
+                report("%s/%s/%s" % (site, form, what),
+                       {"kind": "assign", "site": site, "form": form, "what": what, "detail": detail, "case": c,
+                        "how": "%s vs Assign.tla MinD/Allowed" % site})
             pred_recs.extend(out["recs"])
 
     acases = []
     for role, r in zip(roles, results):
-        if role[0] == "A-emit":
+        if role[0] == "A":
             cases = [p for t, p in r.prints if t == "CASE"]
             if not cases:
                 raise core.MachineryError("no CASE lines emitted for %s" % (role[1:],))
@@ -717,13 +766,13 @@ def run(ctx):
         replay_assign_cases(acases)
     del acases
     for role, r in zip(roles, results):
-        if role[0] == "A-emit":
+        if role[0] == "A":
             continue
-        elif role[0] == "F-emit":
+        elif role[0] == "F":
             cases = [p for t, p in r.prints if t == "CF"]
             if not cases:
                 raise core.MachineryError("no CF lines emitted")
-            res = core.pmap(replay_cf, cases, chunk=500)
+            res = core.pmap(replay_cf, cases, procs=PROCS, chunk=1000)
             for c, bad in zip(cases, res):
                 ctx.case(("cf", str(c["labels"]), str(c["dists"])) if len(c["uniq"]) >= 2 else None,
                          sample=c if len(c["uniq"]) == 3 and len(c["labels"]) == 5 else None)
@@ -732,11 +781,11 @@ def run(ctx):
                     report("find_cluster_centers/%s/%s" % (form, what),
                            {"kind": "cf", "form": form, "what": what, "detail": detail, "case": c,
                             "how": "find_cluster_centers(labels, dists) vs Assign.tla AllowedCenters"})
-        elif role[0] == "P-emit":
+        elif role[0] == "P":
             cases = [p for t, p in r.prints if t == "PART"]
             if not cases:
                 raise core.MachineryError("no PART lines emitted")
-            res = core.pmap(replay_part, cases, chunk=300)
+            res = core.pmap(replay_part, cases, procs=PROCS, chunk=500)
             for c, bad in zip(cases, res):
                 ctx.case(("part", str(c["lengths"]), str(c["flat"]), str(c["idxs"])) if len(c["lengths"]) >= 2 else None,
                          sample=c if len(c["lengths"]) == 3 and len(c["idxs"]) == 2 and c["idxs"][0] == 3 else None)
@@ -745,21 +794,23 @@ def run(ctx):
                     report("%s/%s" % (form, what),
                            {"kind": "part", "form": form, "what": what, "detail": detail, "case": c,
                             "how": "%s vs Partition.tla ExpectedRows/Pair/AllEqual" % form.split("/")[0]})
-        elif role[0] == "B-emit":
+        elif role[0] == "B":
             cases = [p for t, p in r.prints if t == "BATCH"]
             if not cases:
                 raise core.MachineryError("no BATCH lines emitted")
-            batch_recs = core.pmap(batch_record, cases)
+            batch_recs = core.pmap(batch_record, cases, procs=1, chunk=100000)
 
+    gc.enable()
     phases["replay_A"] = round(time.time() - t0, 1)
-    t0 = time.time()
+    cpus["replay_A"] = round(cpu() - c0, 1)
+    t0, c0 = time.time(), cpu()
     # ---- (B) traces judged by TLC
     judge_batch_traces(ctx, report, d, batch_recs, "compute_batches")
     ctx.notes["predict_traces"] = len(pred_recs)
 
     if thorough:
         n_rand = 6000
-        rr = core.pmap(random_record, [(ctx.seed, j) for j in range(n_rand)], chunk=100)
+        rr = core.pmap(random_record, [(ctx.seed, j) for j in range(n_rand)], procs=PROCS, chunk=100)
         rand_recs = [x for sub in rr for x in sub]
         ctx.notes["random_data_sets"] = n_rand
         wd = core.scratch("ev_c10md_")
@@ -771,7 +822,9 @@ def run(ctx):
     else:
         judge_assign_traces(ctx, report, d, pred_recs, "predict")
     phases["traces_B"] = round(time.time() - t0, 1)
+    cpus["traces_B"] = round(cpu() - c0, 1)
     ctx.notes["phase_wall_s"] = phases
+    ctx.notes["phase_cpu_s"] = cpus
 
 
 def replay(ctx, path):
@@ -785,8 +838,8 @@ def replay(ctx, path):
         c = rec["case"]
         c["_allforms"] = True
         ctx.case(("replay2",), sample=c)
-        for form, what, detail in replay_assign(c)["bad"]:
-            report("assign_to_nearest_center/%s/%s" % (form, what), {"kind": kind, "case": c, "detail": detail})
+        for site, form, what, detail in replay_assign(c)["bad"]:
+            report("%s/%s/%s" % (site, form, what), {"kind": kind, "case": c, "detail": detail})
     elif kind == "cf":
         c = rec["case"]
         ctx.case(("replay2",), sample=c)
